@@ -228,7 +228,7 @@ pub fn run(cfg: &Cfg, rep: &mut Rep) {
         }
     }
     let mut r = Rng::new(cfg.seed, 0x1400 + sh as u64);
-    let nrand = cfg.budget(3_000_000);
+    let nrand = cfg.budget(8_000_000);
     for k in 0..nrand {
         let s = rand_step(&mut r);
         let d = match k % 8 {
